@@ -91,6 +91,38 @@ def lift_fn(kc, sc, shapes, upto, idiom, ordered=True):
     return fn
 
 
+def lift_many_fn(kc, sc, sp, realised=True):
+    """a child of MANY blocks (common length and gap) lifted through a two-block placement: some child block straddles the placement junction, others lie
+    wholly in one placement block; size-dependent code paths in the union of the lifted pieces start only at some block count"""
+
+    def fn(**kw):
+        names = sorted(kw)
+        vals = concretize(*[kw[n] for n in names])
+        kw = dict(zip(names, vals if isinstance(vals, list) else [vals]))
+        with untraced():
+            return bool(body(**kw))
+
+    def body(cs, L, G, ps, pl0, pg, extra):
+        cb = [(cs + j * (L + G), cs + j * (L + G) + L) for j in range(kc)]
+        n = kc * L
+        cend = cb[-1][1]
+        levels = [([(ps, ps + pl0), (ps + pl0 + pg, ps + pl0 + pg + max(cend - pl0, 0) + 1 + extra)], sp, "type1")]
+        inner = hierarchy(levels, "loc_parent")
+        child = make_location(cb, sc, parent=inner)
+        lifted = child.lift_over_to_first_ancestor_of_type("type1")
+        lb = blocks_of(lifted)
+        if len(lifted) != n or sum(e - s_ for s_, e in lb) != n:
+            return False
+        exp_strand = sc.relative_to(sp)
+        if lifted.strand is not exp_strand:
+            return False
+        got = [lifted.relative_to_parent_pos(i) for i in range(n)]
+        exp = [compose(cb, sc, levels, i, 1)[0] for i in range(n)]
+        return got == exp and all(a[1] <= b[0] for a, b in zip(lb, lb[1:]))
+
+    return fn
+
+
 def lift_pre(kc, shapes):
     def pre(**kw):
         if not layout_pre(kc, kw, "c", min_len=1, min_gap=1):
@@ -285,6 +317,67 @@ def seq_fn(sc, sp):
     return fn
 
 
+def long_seq_identity_fn():
+    """lift-over BY SEQUENCE IDENTITY on long named chromosomes (lengths around powers of two and 10^5/10^6, where block-wise comparison or length-gated
+    shortcuts would switch on): an equal copy is the ancestor, a copy edited in ONE base (first / middle / last / block-edge position) is not - neither for
+    has_ancestor_sequence nor for lift_over_to_sequence nor for re-lifting a chunk location onto a chunk of the edited chromosome"""
+    LENS = [4097, 65537, 100001, 131073, 1000003]
+    cache = {}
+
+    def genome(n):
+        if n not in cache:
+            unit = "ACGTTGCAAGCTTAGGCTAACGTCA"
+            cache[n] = (unit * (n // len(unit) + 1))[:n]
+        return cache[n]
+
+    def fn(ln, where, cstrand):
+        ln, where, cstrand = concretize(ln, where, cstrand)
+        with untraced():
+            from inscripta.biocantor.exc import MismatchedParentException
+            from inscripta.biocantor.gene.interval import AbstractInterval
+
+            n = LENS[ln]
+            data = genome(n)
+            pos = [0, n // 2, n - 1, 65535, 65536, 99999][where] % n
+            alt_data = data[:pos] + ("A" if data[pos] != "A" else "C") + data[pos + 1:]
+            ref = Sequence(data, Alphabet.NT_STRICT, id="chr1", type=SequenceType.CHROMOSOME)
+            again = Sequence(data, Alphabet.NT_STRICT, id="chr1", type=SequenceType.CHROMOSOME)
+            alt = Sequence(alt_data, Alphabet.NT_STRICT, id="chr1", type=SequenceType.CHROMOSOME)
+            ok = ref == again and not (ref == alt) and ref != alt and hash(ref) == hash(again)
+            strand = PLUS if cstrand == 0 else MINUS
+            st = max(0, min(pos - 40, n - 100))
+
+            def chunk_on(chrom):
+                cdata = str(chrom)[st:st + 100]
+                if strand is MINUS:
+                    cdata = str(Sequence(cdata, Alphabet.NT_STRICT).reverse_complement())
+                cid = "chr1:%d-%d" % (st, st + 100)
+                return Parent(id=cid, sequence=Sequence(cdata, Alphabet.NT_STRICT, id=cid, type=SequenceType.SEQUENCE_CHUNK, parent=Parent(
+                    sequence=chrom, location=SingleInterval(st, st + 100, strand, parent=Parent(sequence=chrom)))))
+
+            loc = SingleInterval(30, 50, MINUS, parent=chunk_on(ref))
+            for target in (ref, again):
+                ok = ok and loc.has_ancestor_sequence(target)
+                lifted = loc.lift_over_to_sequence(target)
+                es = st + 30 if strand is PLUS else st + 100 - 50
+                ok = ok and (lifted.start, lifted.end) == (es, es + 20) and str(lifted.extract_sequence()) == str(loc.extract_sequence())
+            ok = ok and not loc.has_ancestor_sequence(alt)
+            try:
+                loc.lift_over_to_sequence(alt)
+                ok = False
+            except NoSuchAncestorException:
+                pass
+            try:
+                AbstractInterval.liftover_location_to_seq_chunk_parent(loc, chunk_on(alt))
+                ok = False
+            except MismatchedParentException:
+                pass
+            relifted = AbstractInterval.liftover_location_to_seq_chunk_parent(loc, chunk_on(again))
+            return ok and str(relifted.extract_sequence()) == str(loc.extract_sequence())
+
+    return fn
+
+
 def seq3_fn(sp, sq):
     """depth 3 by sequence identity: child on inner, inner on mid, mid on top; every child interval (native loop)"""
 
@@ -454,6 +547,20 @@ def obligations(tier):
                                     "is the library's sorted normal form, cf. F12)" % kc,
                                bounds="child %d block(s) (gaps >= 0), placement 2 overlapping blocks with distinct starts, unbounded symbolic coordinates" % kc,
                                examples=[ex]))
+    for sc, sp in (((PLUS, PLUS), (MINUS, PLUS)) if quick else ((PLUS, PLUS), (MINUS, PLUS), (PLUS, MINUS), (MINUS, MINUS))):
+        out.append(Obl("lift_many_blocks_c20%s_on_2%s" % (sname(sc)[0], sname(sp)[0]), lift_many_fn(20, sc, sp), dict(cs=int, L=int, G=int, ps=int, pl0=int, pg=int, extra=int),
+                       lambda cs, L, G, ps, pl0, pg, extra: 0 <= cs and cs <= 1 and 2 <= L and L <= 3 and 1 <= G and G <= 2 and ps == 3 and 1 <= pl0 and
+                       pl0 <= cs + 20 * (L + G) and pg == 2 and 0 <= extra and extra <= 1, budget=1800, cost=240,
+                       desc="child of 20 blocks lifted through a two-block placement whose junction falls anywhere (inside a child block, in a child gap, before or after "
+                            "the child): the lifted location has the child's length and its i-th base is placement.walk(child.walk(i)) for every i; blocks disjoint and sorted",
+                       bounds="20 child blocks of common length 2..3 and gap 1..2 starting at 0..1; placement junction after 1..all positions, placement start 3, gap 2 (realised)",
+                       examples=[dict(cs=1, L=3, G=2, ps=3, pl0=30, pg=2, extra=0), dict(cs=0, L=2, G=1, ps=3, pl0=7, pg=2, extra=1)]))
+    out.append(Obl("lift_by_sequence_identity_long_chromosomes", long_seq_identity_fn(), dict(ln=int, where=int, cstrand=int),
+                   lambda ln, where, cstrand: 0 <= ln and ln <= (3 if quick else 4) and 0 <= where and where <= 5 and 0 <= cstrand and cstrand <= 1, budget=900, cost=60,
+                   desc="long named chromosomes: an equal copy is an ancestor (lift-over by sequence identity works and keeps the sequence), a copy with ONE edited base "
+                        "is not (has_ancestor_sequence False, lift_over_to_sequence and re-lifting onto its chunk refused)",
+                   bounds="lengths 4097, 65537, 100001, 131073%s x edited base first/middle/last/65535/65536/99999 x chunk strand (closed by the solver)" % (
+                       "" if quick else ", 1000003"), examples=[dict(ln=2, where=1, cstrand=0), dict(ln=0, where=2, cstrand=1)]))
     out.append(Obl("lift_twin_hierarchies", twin_hierarchies_fn(), dict(cs=int, cl=int, order=int),
                    lambda cs, cl, order: 0 <= cs and 1 <= cl and cs + cl <= 50 and 0 <= order and order <= 3 and (cs % 7 == 1) and (cl % 9 == 2 or cl == 1), budget=300, cost=20,
                    desc="two hierarchies identical below the chromosome level, one with and one without an assembly above it, built in either order in one process "
